@@ -50,6 +50,13 @@ def callFunc (name : String) (args : List Value) : String :=
      | some ss => (match findfirstLiteral p ss with | some r => (Value.str r).show | none => "N")
      | none => "UNMODELLED")
   | "grep", [.str p, .str s] => (match grepLiteral p s with | some r => (Value.str r).show | none => "N")
+  | "subst", [.str p, .str r, .str s] =>
+    (match substLiteral p r s with | some x => (Value.str x).show | none => "UNMODELLED")
+  | "grepn", [.str p, .str s, .int n] =>
+    (match grepnLiteral p s n with
+     | some (some r) => (Value.str r).show
+     | some none => "N"
+     | none => "ERR:IndexError")
   | "maxwidth", [.str s, .int n] =>
     if s.toList.any (fun c => c == '-' || c.toNat ≥ 127 || (c.toNat < 32 && !isWs c)) then "UNMODELLED"
     else (match shorten s.toList n with
